@@ -258,18 +258,18 @@ def run(ctx):
             add("lp", a + " " + b, "pair")
     for a in alphabet:
         add("lpc", a, "single")
-    for _ in range(ctx.n(20000, 300000)):
+    for _ in range(ctx.n(20000, 150000)):
         k = rng.choice([3, 3, 4, 5, 6])
         add("lp", " ".join(rng.choice(alphabet if rng.random() < 0.5 else NOISE_TOKENS) for _ in range(k)), "seq")
-    for _ in range(ctx.n(1500, 30000)):
+    for _ in range(ctx.n(1500, 12000)):
         k = rng.choice([2, 3, 3, 4, 5, 6])
         add("lpc", " ".join(rng.choice(alphabet if rng.random() < 0.5 else NOISE_TOKENS) for _ in range(k)), "seq-check")
 
     # token-level mutants of the tree's Elk sources
-    nmut = ctx.n(20000, 400000)
+    nmut = ctx.n(20000, 200000)
     chunks = LC.chunks(seeds, rng, nmut // 3 + 10, 1200)
     spans = token_spans(chunks)
-    ncheck = ctx.n(2500, 40000)
+    ncheck = ctx.n(2500, 15000)
     for i in range(nmut):
         k = rng.randrange(len(chunks))
         m = mutate_tokens(rng, chunks[k], spans[k], alphabet)
@@ -277,8 +277,8 @@ def run(ctx):
     for k in range(min(len(chunks), ctx.n(150, 5000))):
         add("lpc" if k < ctx.n(100, 2000) else "lp", chunks[k], "corpus")
     # truncations at every byte (REPL prefixes)
-    for k in range(ctx.n(40, 800)):
-        c = chunks[rng.randrange(len(chunks))][:ctx.n(300, 1200)]
+    for k in range(ctx.n(40, 300)):
+        c = chunks[rng.randrange(len(chunks))][:ctx.n(300, 600)]
         for p in range(len(c)):
             add("lp", c[:p], "truncation")
 
